@@ -477,6 +477,14 @@ def _collector_calls(ctx, f):
 def r9(run, ctx):
     run.rule('R9', "a child's exit status is collected only by the termination and reap routines")
     n = owners = 0
+    table = set(COLLECT_WRAPPERS) | set(COLLECT_OWNERS)
+
+    def private_to_owners(f, depth=0):
+        # a helper all of whose call sites are in the routines above (or in such helpers)
+        cs = ctx.callers_of([f.key], kinds=('call', 'ref'))
+        return bool(cs) and depth < 4 and all(
+            c.key in table or (c.key != f.key and private_to_owners(c, depth + 1))
+            for c, _ in cs)
     for f in ctx.p.all_functions():
         if not f.key.startswith('circus.') or f.key.startswith('circus.tests'):
             continue
@@ -484,7 +492,7 @@ def r9(run, ctx):
         if not calls:
             continue
         n += len(calls)
-        allowed = f.key in COLLECT_WRAPPERS or f.key in COLLECT_OWNERS
+        allowed = f.key in table or private_to_owners(f)
         owners += allowed
         for node, c, what in calls:
             run.check('R9', allowed, '%s may collect a child (%s)' % (
